@@ -200,6 +200,12 @@ class Fn(object):
             return [], '(V.dict 0 false)', 'V'          # the empty dict literal
         if isinstance(e, ast.List) and not e.elts:
             return [], '[]', 'List ?'                    # typed by the field it is assigned to
+        if isinstance(e, ast.List):
+            parts = [self.expr(x_, env) for x_ in e.elts]
+            if len({ty_ for (_b, _t, ty_) in parts}) != 1:
+                raise Unsupported('list literal of mixed types')
+            return [b_ for (bs_, _t, _y) in parts for b_ in bs_], '[%s]' % ', '.join(t_ for (_b, t_, _y) in parts), \
+                'List %s' % parts[0][2]
         if isinstance(e, ast.Name):
             if e.id in env:
                 return [], lean_name(e.id), env[e.id]
@@ -479,15 +485,19 @@ class Fn(object):
             return s.name in self.tr['ignore_locals']
         return False
 
+    def is_assigned_input(self, s):
+        return isinstance(s, ast.Assign) and len(s.targets) == 1 and isinstance(s.targets[0], (ast.Tuple, ast.Name)) \
+            and isinstance(s.value, ast.Call) and ast.unparse(s.value.func) in self.tr.get('assigned_inputs', {})
+
     def trace_stmt(self, s, rest, env, ret, self_ty, indent):
         pad = '  ' * indent
-        if self.droppable(s):
+        if self.droppable(s) and not self.is_assigned_input(s):
             return self.block(rest, env, ret, self_ty, indent)
-        if isinstance(s, ast.Assign) and len(s.targets) == 1 and isinstance(s.targets[0], ast.Tuple) \
-                and isinstance(s.value, ast.Call) and ast.unparse(s.value.func) in self.tr.get('assigned_inputs', {}):
-            # (a, b, _) = declared_call(...): the targets are inputs of the translation
+        if self.is_assigned_input(s):
+            # (a, b, _) = declared_call(...) / a = declared_call(...): the targets are inputs of the translation
             decl = self.tr['assigned_inputs'][ast.unparse(s.value.func)]
-            names = [t.id if isinstance(t, ast.Name) else None for t in s.targets[0].elts]
+            tgs_ = s.targets[0].elts if isinstance(s.targets[0], ast.Tuple) else [s.targets[0]]
+            names = [t.id if isinstance(t, ast.Name) else None for t in tgs_]
             if names != list(decl):
                 raise Unsupported('targets of %s are %s, spec says %s' % (ast.unparse(s.value.func), names, list(decl)))
             env2 = dict(env)
@@ -518,6 +528,22 @@ class Fn(object):
             if self.in_loop:
                 raise Unsupported('raise inside a loop')
             return pad + 'let trace := trace ++ [Event.%s]\n' % self.tr['raise_events'][s.exc.func.id] + pad + 'some trace'
+        if isinstance(s, ast.Raise) and isinstance(s.exc, ast.Name) and s.exc.id in self.tr.get('raise_events', {}):
+            if self.in_loop:                                  # raise <declared local>
+                raise Unsupported('raise inside a loop')
+            return pad + 'let trace := trace ++ [Event.%s]\n' % self.tr['raise_events'][s.exc.id] + pad + 'some trace'
+        if isinstance(s, ast.Expr) and isinstance(s.value, ast.Call) and isinstance(s.value.func, ast.Attribute) \
+                and s.value.func.attr == 'extend' and isinstance(s.value.func.value, ast.Name) \
+                and env.get(s.value.func.value.id, '').startswith('List ') and len(s.value.args) == 1 and not s.value.keywords:
+            # xs.extend(ys) on a local list
+            x_ = s.value.func.value.id
+            b_, t_, ty_ = self.expr(s.value.args[0], env)
+            if ty_ != env[x_]:
+                raise Unsupported('%s.extend with a %s' % (x_, ty_))
+            if self.in_loop:
+                raise Unsupported('extend inside a loop')
+            return self.wrap(b_, pad + 'let %s := %s ++ %s\n' % (lean_name(x_), lean_name(x_), t_) +
+                             self.block(rest, env, ret, self_ty, indent), pad)
         if isinstance(s, ast.With):
             # with <declared lock>: held to the end of the function (nothing may follow the statement)
             if len(s.items) != 1 or s.items[0].optional_vars is not None \
@@ -531,21 +557,49 @@ class Fn(object):
             raise Unsupported('an `if` that tests an ignored name contains a kept statement')
         if isinstance(s, (ast.Continue, ast.Break)):
             raise Unsupported('%s in a trace unit' % type(s).__name__.lower())
+        if isinstance(s, ast.Pass):
+            return self.block(rest, env, ret, self_ty, indent)
         if isinstance(s, ast.Try):
+            if self.tr.get('refuse_try'):
+                raise Unsupported('a try statement in a unit declared to have none')
+            tf = self.tr.get('try_finally')
+            if tf and s.finalbody and not s.handlers and not s.orelse:
+                # try: <one assigned input> finally: <f>: whether the body raises is an input; <f> runs in both
+                # cases, then the exception propagates (a final event) or the function goes on
+                if len(s.body) != 1 or not self.is_assigned_input(s.body[0]) or self.in_loop:
+                    raise Unsupported('try ... finally whose body is not one declared call')
+                go_on = self.block(list(s.body) + list(s.finalbody) + rest, env, ret, self_ty, indent + 1)
+                saved_fall = self.fall
+                self.fall = 'some (trace ++ [Event.%s])' % tf['event']
+                # the assigned input is the first event; its targets stay unbound
+                ev_ = self.tr.get('assigned_input_events', {}).get(ast.unparse(s.body[0].value.func))
+                prop = ('  ' * (indent + 1) + 'let trace := trace ++ [Event.%s]\n' % ev_ if ev_ else '') + \
+                    self.block(list(s.finalbody), env, ret, self_ty, indent + 1)
+                self.fall = saved_fall
+                return pad + 'if %s then\n%s\n%selse\n%s' % (lean_name(tf['param']), prop, pad, go_on)
             if s.finalbody or s.orelse:
                 raise Unsupported('try with else / finally')
             th = self.tr.get('try_handlers', {})
             if th:
+                is_event = lambda x_: isinstance(x_, ast.Expr) and isinstance(x_.value, ast.Call) \
+                    and ast.unparse(x_.value.func) in self.tr['events']
+                kept_ = [x_ for x_ in s.body if self.is_assigned_input(x_) or is_event(x_) or not self.droppable(x_)]
+                if len(kept_) > 1 or any(not (self.is_assigned_input(x_) or is_event(x_)) for x_ in kept_):
+                    raise Unsupported('a try with a declared handler has a body of more than ignored calls and one declared call')
+                # an event call that raises has happened; the targets of an assigned input stay unbound
+                before = [x_ for x_ in kept_ if is_event(x_)]
                 # declared handlers: whether the body raises that exception is an input; the handler must end the function
                 if len(s.handlers) != 1 or not isinstance(s.handlers[0].type, ast.Name) or s.handlers[0].type.id not in th:
                     raise Unsupported('try with handlers other than the declared %s' % sorted(th))
                 h = s.handlers[0]
-                if not isinstance(h.body[-1], (ast.Raise, ast.Return)):
-                    raise Unsupported('the handler of %s does not end the function' % h.type.id)
                 if h.name:
                     self.tr['ignore_locals'].add(h.name)
+                # a handler that does not end the function goes on with the statements after the try
+                tail = [] if isinstance(h.body[-1], (ast.Raise, ast.Return)) else rest
+                if tail and self.in_loop:
+                    raise Unsupported('a handler inside a loop that does not end the function')
                 return pad + 'if %s then\n%s\n%selse\n%s' % (
-                    lean_name(th[h.type.id]), self.block(list(h.body), env, ret, self_ty, indent + 1), pad,
+                    lean_name(th[h.type.id]), self.block(before + list(h.body) + tail, env, ret, self_ty, indent + 1), pad,
                     self.block(list(s.body) + rest, env, ret, self_ty, indent + 1))
             # only the try body: an exception is `none` in any case
             return self.block(list(s.body) + rest, env, ret, self_ty, indent)
@@ -968,8 +1022,10 @@ def translate(spec, repo):
             for decl in u.get('assigned_inputs', {}).values():
                 ip += [(n_, ty_) for n_, ty_ in decl.items() if ty_ != 'Opaque' and n_ is not None]
             ip += [(p_, 'Bool') for p_ in u.get('try_handlers', {}).values()]
-            trace_units['self.' + u['name']] = {
-                'lean': '%s_%s' % (cls_name(u['class']), u['name'].lstrip('_')),
+            if u.get('try_finally'):
+                ip.append((u['try_finally']['param'], 'Bool'))
+            trace_units[('self.' if u.get('class') else '') + u['name']] = {
+                'lean': ('%s_%s' % (cls_name(u['class']), u['name'].lstrip('_'))) if u.get('class') else lean_name(u['name'].lstrip('_')),
                 'types': [t for (_n, t) in u['params'].items() if t != 'Opaque'],
                 'all_types': [t for (_n, t) in u['params'].items()],
                 'extra': [lean_name(n_) for (n_, _t) in ip], 'extra_typed': ip}
@@ -1085,9 +1141,10 @@ def translate(spec, repo):
             out.append('def %s_init %s : Option %s :=\n%s\n' % (
                 cls_name(cls), signature([], u['params']), cls_name(cls), body))
         elif kind == 'trace':
-            want = ['self'] + list(u['params'])
+            want = (['self'] if u.get('class') else []) + list(u['params'])
             if got != want:
-                raise Unsupported('signature of %s.%s is %s, spec says %s' % (u['class'], u['name'], got, want))
+                raise Unsupported('signature of %s.%s is %s, spec says %s' % (u.get('class'), u['name'], got, want))
+            own_key = ('self.' if u.get('class') else '') + u['name']
             table, iparams = unit_inputs(u)
             tr = Fn(spec, records, funcs, dict(ctx, cls=u.get('class'), inputs=table, trace={
                 'events': events, 'ignore_locals': set(u.get('ignore_locals', [])),
@@ -1096,7 +1153,8 @@ def translate(spec, repo):
                 'return_events': u.get('return_events', {}), 'raise_events': u.get('raise_events', {}),
                 'lock_events': u.get('lock_events', {}), 'try_handlers': u.get('try_handlers', {}),
                 'assigned_input_events': u.get('assigned_input_events', {}),
-                'units': dict((k_, v_) for k_, v_ in trace_units.items() if k_ != 'self.' + u['name'])}))
+                'try_finally': u.get('try_finally'), 'refuse_try': u.get('refuse_try', False),
+                'units': dict((k_, v_) for k_, v_ in trace_units.items() if k_ != own_key)}))
             env = dict((p_, t) for p_, t in u['params'].items() if t != 'Opaque')
             for decl in u.get('assigned_inputs', {}).values():
                 for n_, ty_ in decl.items():
@@ -1106,8 +1164,12 @@ def translate(spec, repo):
                         tr.tr['ignore_locals'].add(n_)
             for p_ in u.get('try_handlers', {}).values():
                 iparams.append((p_, 'Bool'))
+            if u.get('try_finally'):
+                iparams.append((u['try_finally']['param'], 'Bool'))
             for n_ in ast.walk(fn):                      # the inputs of the trace units it calls are its inputs too
-                if isinstance(n_, ast.Call) and ast.unparse(n_.func) in trace_units and ast.unparse(n_.func) != 'self.' + u['name']:
+                if isinstance(n_, ast.Call) and ast.unparse(n_.func) in trace_units and ast.unparse(n_.func) != own_key \
+                        and ast.unparse(n_.func) not in u.get('assigned_inputs', {}) \
+                        and ast.unparse(n_) not in u.get('return_events', {}):
                     for pt in trace_units[ast.unparse(n_.func)]['extra_typed']:
                         if pt not in iparams:
                             iparams.append(pt)
@@ -1115,11 +1177,12 @@ def translate(spec, repo):
             body = tr.block(fn.body, env, 'List Event', None, 1)
             sig = ' '.join(['(%s : %s)' % (lean_name(n_), lean_ty(t)) for (n_, t) in iparams] +
                            ['(%s : %s)' % (lean_name(p_), lean_ty(t)) for p_, t in u['params'].items() if t != 'Opaque'])
-            out.append('/-- the events of `%s.%s` (%s) -/' % (
-                u['class'], u['name'], 'whether the body of its `try` raises %s is an input' % ' / '.join(u['try_handlers'])
-                if u.get('try_handlers') else 'of a `try` statement only the body is translated'))
-            out.append('def %s_%s %s : Option (List Event) :=\n  let trace : List Event := []\n%s\n' % (
-                cls_name(u['class']), u['name'].lstrip('_'), sig, body))
+            out.append('/-- the events of `%s%s` (%s) -/' % (
+                (u['class'] + '.') if u.get('class') else '', u['name'], 'whether the body of its `try` raises %s is an input' % ' / '.join(u['try_handlers'])
+                if u.get('try_handlers') else 'whether the body of its `try ... finally` raises is an input'
+                if u.get('try_finally') else 'of a `try` statement only the body is translated'))
+            out.append('def %s %s : Option (List Event) :=\n  let trace : List Event := []\n%s\n' % (
+                trace_units[own_key]['lean'], sig, body))
         elif kind == 'call_arg':
             # the n-th argument of the one call of `call` inside the function, as a function of the inputs
             table, iparams = unit_inputs(u)
